@@ -355,10 +355,13 @@ fn check_custom(c: &CustomCase, obs: &mut Obs) {
         character_size: Size::new(c.cw, c.ch),
         character_spacing: c.spacing,
         baseline: c.ch.saturating_sub(1),
-        strikethrough: DecorationDimensions::new(c.ch / 2, 1),
-        underline: DecorationDimensions::new(c.ch + 1, 2),
+        // decoration geometry varies with the case: heights 0 (a font that switches the decoration off), 1, 2, 3 and
+        // offsets inside, below and at the top of the cell
+        strikethrough: DecorationDimensions::new(c.ch / 2, [1, 0, 3][(c.spacing % 3) as usize]),
+        underline: DecorationDimensions::new(if c.spacing == 1 { 0 } else { c.ch + 1 }, [2, 3, 0][(c.spacing % 3) as usize]),
         glyph_mapping: gm,
     };
+    obs.class_if(font.strikethrough.height == 0 || font.underline.height == 0, "decoration-of-zero-height");
     let (text, bg, ul, st) = deco16()[c.deco as usize];
     obs.class("custom-font");
     obs.class_if(c.spacing > 0, "character-spacing");
@@ -496,14 +499,15 @@ fn run_part(run: &mut Run) {
     let tier = run.tier;
     match run.part.as_str() {
         "mapping" => {
-            run.sweep_vec("mapping-tables", "all 292 built-in fonts: index() of every mapped and 9 unmapped characters against the named mapping table, cells inside the atlas; full scan of every BMP scalar value plus 64 beyond for one font per subset (thorough: every font)", || {
+            run.sweep_vec("mapping-tables", "all 292 built-in fonts: index() of every mapped and 9 unmapped characters against the named mapping table, cells inside the atlas; full scan of every BMP scalar value plus 64 beyond for every font (a font may name another mapping than the one of its subset)", || {
                 let mut v = vec![];
                 for i in 0..FONTS.len() {
                     v.push(MapCase { font: font_name(i), full_scan: false });
                 }
                 for s in SUBSETS {
                     let f = fonts_of(s);
-                    if tier.is_thorough() {
+                    // (the full scan of every font costs a few seconds: a font may name another mapping than its subset's)
+                    if true || tier.is_thorough() {
                         for i in f {
                             v.push(MapCase { font: font_name(i), full_scan: true });
                         }
@@ -531,7 +535,7 @@ fn main() {
         assumptions: &["mapping tables are checked for internal consistency and against the atlas geometry, not against the ISO 8859 standards", "with character spacing the decorations may span the text width or the advance width (an existing test pins the latter for transparent text)"],
         parts: |_| vec![PartSpec::new("mapping", "verif"), PartSpec::new("draw-a", "verif"), PartSpec::new("draw-b", "verif")],
         run_part,
-        required_classes: |_| vec!["mapping-per-font", "mapping-full-bmp-scan", "mapped-character", "unmapped-character", "non-bmp-character", "control-character", "decorated", "background-only", "three-characters", "glyphs-through-a-target-window", "line-starting-with-carriage-return", "custom-font", "character-spacing", "spacing-with-background", "one-glyph-per-row", "closure-mapping"],
+        required_classes: |_| vec!["decoration-of-zero-height", "mapping-per-font", "mapping-full-bmp-scan", "mapped-character", "unmapped-character", "non-bmp-character", "control-character", "decorated", "background-only", "three-characters", "glyphs-through-a-target-window", "line-starting-with-carriage-return", "custom-font", "character-spacing", "spacing-with-background", "one-glyph-per-row", "closure-mapping"],
         crash_is_verdict: false,
     })
 }
